@@ -127,6 +127,7 @@ func ruleGate(r *Run, p *Prog, withSampler bool) {
 	if !r.Anchor(should != nil, "GATE", "(*Logger).should") || !r.Anchor(glob != nil, "GATE", "GlobalLevel") {
 		return
 	}
+	should = p.View(should, "keep-gate-anchors", func(g *ssa.Function) bool { return g == glob || g == sdis })
 	paths, complete := enumPaths(should, 1, 4000)
 	if !complete || len(paths) == 0 {
 		r.Fail("GATE", FnName(should)+"/paths", p.Pos(should.Pos()), "cannot enumerate the paths of the level gate (undecided, fail closed)")
@@ -246,6 +247,8 @@ func ruleNewEventNil(r *Run, p *Prog) {
 	if !r.Anchor(ne != nil, "GATE", "(*Logger).newEvent") || should == nil {
 		return
 	}
+	pneFn := p.Func("", "newEvent")
+	ne = p.View(ne, "keep-should-newEvent", func(g *ssa.Function) bool { return g == should || g == pneFn })
 	paths, complete := enumPaths(ne, 1, 4000)
 	if !complete {
 		r.Fail("GATE", FnName(ne)+"/paths", p.Pos(ne.Pos()), "cannot enumerate paths of newEvent")
